@@ -35,6 +35,7 @@ var $callDeferred = (deferred, jsErr, fromPanic) => {
         $panicStackDepth = $getStackDepth();
         $panicValue = localPanicValue;
     }
+    var recovered = false;
 
     try {
         while (true) {
@@ -62,7 +63,7 @@ var $callDeferred = (deferred, jsErr, fromPanic) => {
             var call = deferred.pop();
             if (call === undefined) {
                 $curGoroutine.deferStack.pop();
-                if (localPanicValue !== undefined) {
+                if (localPanicValue !== undefined && !recovered) {
                     deferred = null;
                     continue;
                 }
@@ -77,12 +78,14 @@ var $callDeferred = (deferred, jsErr, fromPanic) => {
                 return;
             }
 
-            if (localPanicValue !== undefined && $panicStackDepth === null) {
+            if (localPanicValue !== undefined && !recovered && $panicStackDepth === null) {
                 /* error was recovered */
                 if (fromPanic) {
                     throw null;
                 }
-                return;
+                /* At the end of the function (a deferred call recovered after it had been
+                   resumed): the remaining deferred calls of the frame still have to run. */
+                recovered = true;
             }
         }
     } catch (e) {
